@@ -104,12 +104,13 @@ def run_r1(repo: Repo, res: Result, rule_id: str = "C03.R1") -> None:
         # popped nodes that belong to the excluded set are skipped before expansion
         if pushes:
             n += 1
-            ok = all(all(implies(m.guard_of(c), f_not(atom(f"{m.popped} in {x}"))) for c in (m.neighbour_calls or [m.neighbour_call])) for x in exc)
+            in_own = [atom(f"{m.popped} in {o}") for o in own]  # a module of the subject is expanded even when it lies inside an excepted object (D21)
+            ok = all(all(implies(m.guard_of(c), f_or([f_not(atom(f"{m.popped} in {x}")), *in_own])) for c in (m.neighbour_calls or [m.neighbour_call])) for x in exc)
             unresolved = [] if ok else [x for c in (m.neighbour_calls or [m.neighbour_call]) for x in unresolved_subtree_sets(m, m.guard_of(c), [m.popped])]
             if unresolved:
                 res.undecide(rule_id, f"{fi.relpath}::{getattr(fi, 'shown', fi.qualname)}::excluded nodes are not expanded", f"the expansion of `{m.popped}` is guarded by a test of `{unresolved[0]}`, which is computed from sub-tree lookups in a way the model cannot relate to `{exc[0]}`", where(fi, m.neighbour_call))
                 continue
-            res.add(rule_id, f"{fi.relpath}::{getattr(fi, 'shown', fi.qualname)}::excluded nodes are not expanded", ok, "popped nodes in the excluded set are skipped" if ok else f"a popped node in `{exc[0]}` is expanded: imports of the rule's objects are reported as the subject's", where(fi, m.neighbour_call), kind="dominance")
+            res.add(rule_id, f"{fi.relpath}::{getattr(fi, 'shown', fi.qualname)}::excluded nodes are not expanded", ok, "popped nodes in the excluded set are skipped (unless they belong to the subject itself)" if ok else f"a popped node in `{exc[0]}` is expanded: imports of the rule's objects are reported as the subject's", where(fi, m.neighbour_call), kind="dominance")
         else:
             n += 1
             res.add(rule_id, f"{fi.relpath}::{getattr(fi, 'shown', fi.qualname)}::no push", True, "the search never extends its worklist beyond the subject's subtree", where(fi, fi.node), nontrivial=False)
